@@ -610,7 +610,7 @@ func (c20) Gen(rng *rand.Rand, tier string, i int) *sim.Scenario {
 	e2e := cell % 4
 	c := sim.Call{Entry: "run_traceroute", Protocol: "tcp", Method: method, Target: "127.0.0.2", Listener: 1, MinTTL: 1,
 		MaxTTL: between(rng, 1, 5), TimeoutMs: pick(rng, 300, 500), DelayMs: pick(rng, 0, 1, 5), Queries: between(rng, 1, 2), E2E: e2e}
-	lis := sim.Listener{Addr: "127.0.0.2", Port: 33434, Permitted: true, ISN: rng.Uint32(), ServerSeq: rng.Uint32()}
+	lis := sim.Listener{Addr: "127.0.0.2", Port: 33434, Permitted: true, ISN: rng.Uint32(), ServerSeq: rng.Uint32(), OptLayout: pick(rng, "", "bsd", "win", "tsfirst", "sacklast")}
 	switch capb {
 	case "ok-ts":
 		lis.Timestamps = true
